@@ -515,11 +515,8 @@ structure TransAcc where
   manualFail : Bool := false
   readyKeys : List TaskKey := []
 
-/-- stage (or merge into the staged entry of) the target of a satisfied transition -/
-def stageNext (k : TaskKey) (idx : Nat) (e : Edge) (outIdxs : List Nat) (acc : TransAcc) : M TransAcc := do
-  let nextRoute ← evaluateRoute e k.2
-  let nk : TaskKey := (e.dst, nextRoute)
-  let backref : TransId := (k.1, e.key)
+/-- create the staged entry of a transition's target, or merge the arrival into the existing one -/
+def stageTarget (nk : TaskKey) (backref : TransId) (idx : Nat) (outIdxs : List Nat) : M Unit := do
   let c ← get
   (match c.st.getStaged? nk with
     | some _ => do
@@ -529,8 +526,15 @@ def stageNext (k : TaskKey) (idx : Nat) (e : Edge) (outIdxs : List Nat) (acc : T
                  items := none, completed := false }
     | none =>
       modifySt fun st => st.addStaged
-        { id := e.dst, route := nextRoute, ctxsIn := if outIdxs.isEmpty then [0] else outIdxs,
+        { id := nk.1, route := nk.2, ctxsIn := if outIdxs.isEmpty then [0] else outIdxs,
           prev := [(backref, idx)], ready := false } : M Unit)
+
+/-- stage (or merge into the staged entry of) the target of a satisfied transition -/
+def stageNext (k : TaskKey) (idx : Nat) (e : Edge) (outIdxs : List Nat) (acc : TransAcc) : M TransAcc := do
+  let nextRoute ← evaluateRoute e k.2
+  let nk : TaskKey := (e.dst, nextRoute)
+  let backref : TransId := (k.1, e.key)
+  stageTarget nk backref idx outIdxs
   let c ← get
   let ready := inboundStatus c e.dst k.2 == .satisfied
   modifySt fun st => st.updateStaged nk fun x => { x with ready := ready }
@@ -561,14 +565,17 @@ def fireTransition (k : TaskKey) (idx : Nat) (ec : EvalCtx) (acc : TransAcc) (e 
         fun r => { r with ctxsOut := some (tid, newIdx) } : M Unit)
     stageNext k idx e outIdxs acc
 
+/-- the transition's condition on the task's context: `none` when the evaluation fails -/
+def transCriteria (e : Edge) (ec : EvalCtx) : Option Bool :=
+  match e.criteria with
+  | none => some true
+  | some cnd => (E.eval cnd ec).map Val.truthy
+
 /-- body of the loop over outbound transitions for one transition -/
 def processTransition (k : TaskKey) (idx : Nat) (ec : EvalCtx) (acc : TransAcc) (e : Edge) :
     M TransAcc := do
   let tid : TransId := (e.dst, e.key)
-  let crit : Option Bool := match e.criteria with
-    | none => some true
-    | some cnd => (E.eval cnd ec).map Val.truthy
-  match crit with
+  match transCriteria E e ec with
   | none => do
     logError "ExpressionEvaluationException" (some k.1) (some k.2) (some tid)
     failOnError
@@ -597,20 +604,26 @@ def makeTaskContext (k : TaskKey) (idx : Nat) (result : Val) : M EvalCtx := do
   let vars ← liftExcept (c.st.taskContext r.ctxsIn)
   pure { vars := vars, curTask := some k, result := some result, st := some c.st }
 
+/-- a new record from the task's staged entry -/
+def recordFromStaged (k : TaskKey) (staged0 : Option Staged) : M Nat :=
+  match staged0 with
+  | some sx => addTaskState E (k.1, sx.route) sx.ctxsIn sx.prev
+  | none => throw .typeError
+
+/-- the record an event applies to before the re-entry rule: the task's latest one, or a new one
+    for an engine command or a task that has none yet -/
+def firstRecord (k : TaskKey) (staged0 : Option Staged) (rec0 : Option Nat) : M Nat :=
+  match rec0, isCmdName k.1 with
+  | some i, false => pure i
+  | _, _ => recordFromStaged E k staged0
+
 /-- phase 1: find or create the record the event applies to -/
 def ensureRecord (k : TaskKey) (staged0 : Option Staged) (rec0 : Option Nat) (ev : Event) : M Nat := do
-  let idx ← (match rec0, isCmdName k.1 with
-    | some i, false => pure i
-    | _, _ => match staged0 with
-      | some sx => addTaskState E (k.1, sx.route) sx.ctxsIn sx.prev
-      | none => throw .typeError : M Nat)
+  let idx ← firstRecord E k staged0 rec0
   -- a completed record receiving a starting status is a new cycle iteration
   let c ← get
   let r ← liftOpt c.st.sequence[idx]? .indexError
-  if r.status.any Status.isCompleted && ev.status.isStarting then
-    match staged0 with
-    | some sx => addTaskState E (k.1, sx.route) sx.ctxsIn sx.prev
-    | none => throw .typeError
+  if r.status.any Status.isCompleted && ev.status.isStarting then recordFromStaged E k staged0
   else pure idx
 
 /-- phase 2: staging bookkeeping for the event and the failure log entry -/
